@@ -1251,6 +1251,52 @@ def unstubbed(ctx, G):
                               {"system": "System.from_mu(%r)" % mu, "queries_before": [n for n, _ in order], "query": name,
                                "observed": repr(got)[:300], "fresh": repr(fresh[name])[:300]})
                 return
+    # --- two systems in one session: caches shared between objects must separate them.  `System.from_mu` gives every system the same
+    # body names, so anything keyed on names collides; the second system is compared with an independent integration of the CR3BP
+    # equations at ITS mass parameter (SciPy DOP853), and the first system is queried again afterwards.
+    from scipy.integrate import solve_ivp
+
+    def cr3bp(mu_):
+        def f(t, y):
+            x, yy, z, vx, vy, vz = y
+            r1 = ((x + mu_) ** 2 + yy ** 2 + z ** 2) ** 1.5
+            r2 = ((x - 1 + mu_) ** 2 + yy ** 2 + z ** 2) ** 1.5
+            return [vx, vy, vz,
+                    2 * vy + x - (1 - mu_) * (x + mu_) / r1 - mu_ * (x - 1 + mu_) / r2,
+                    -2 * vx + yy - (1 - mu_) * yy / r1 - mu_ * yy / r2,
+                    -(1 - mu_) * z / r1 - mu_ * z / r2]
+        return f
+    sa = Sys.from_mu(mu)
+    sa.propagate([0.8, 0, 0, 0, 0.1, 0], tf=0.3, steps=7)
+    sa.propagate([0.8, 0, 0, 0, 0.1, 0], tf=0.3, steps=7, forward=-1)
+    y0 = [0.8, 0.0, 0.05, 0.0, 0.1, 0.02]
+    for mu_b in (0.05, 0.3):
+        sb = Sys.from_mu(mu_b)
+        for fwd in (1, -1):
+            got = np.asarray(sb.propagate(y0, tf=0.6, steps=7, forward=fwd).states)[-1]
+            ref = solve_ivp(cr3bp(mu_b), (0.0, 0.6 * fwd), y0, method="DOP853", rtol=1e-12, atol=1e-13).y[:, -1]
+            other = solve_ivp(cr3bp(mu), (0.0, 0.6 * fwd), y0, method="DOP853", rtol=1e-12, atol=1e-13).y[:, -1]
+            dev = float(np.abs(got - ref).max())
+            sep = float(np.abs(ref - other).max())
+            ctx.case(("two-systems", mu_b, fwd), kind="two-systems-one-session", nontrivial=sep > 1e-3)
+            # which flow was followed is the question here, not the integrator's accuracy (C02): the two candidate flows are `sep` apart
+            if not dev <= 0.02 * sep:
+                ctx.violation("system:two-systems-share-state",
+                              "System.from_mu(%r).propagate(forward=%d) after a System.from_mu(%r) was used in the same session ends %.3g away from the "
+                              "CR3BP flow at its own mass parameter (and %.3g away from the flow at the other system's mass parameter)"
+                              % (mu_b, fwd, mu, dev, float(np.abs(got - other).max())),
+                              {"history": ["A = System.from_mu(%r)" % mu, "A.propagate(...)", "B = System.from_mu(%r)" % mu_b,
+                                           "B.propagate(%r, tf=0.6, steps=7, forward=%d)" % (y0, fwd)],
+                               "observed_final": got.tolist(), "reference_final_at_mu_B": ref.tolist(), "reference_final_at_mu_A": other.tolist()})
+                return
+    for name in ("propagate-a", "propagate-e"):
+        got = dict(queries)[name](sa)
+        ctx.case(("two-systems", "first-again", name), kind="two-systems-one-session")
+        if not arr_eq(got, fresh[name]):
+            ctx.violation("system:two-systems-share-state", "a System query after ANOTHER system (other mass parameter) was used differs from the same query on a fresh object",
+                          {"history": ["A = System.from_mu(%r)" % mu, "B = System.from_mu(0.05), System.from_mu(0.3) propagated", "A." + name],
+                           "observed": repr(got)[:300], "fresh": repr(fresh[name])[:300]})
+            return
     # --- save / load round trips (real pickles, real numerics)
     p = os.path.join(H.tmp, "sys.pkl")
     s = Sys.from_mu(mu)
